@@ -1,0 +1,31 @@
+//go:build verif
+
+// Package verifhook provides scheduling points for verification harnesses.
+// With the `verif` build tag, Yield forwards to the scheduler bound to the context (if any).
+package verifhook
+
+import "context"
+
+type key struct{}
+
+// Scheduler is implemented by the verification harness.
+type Scheduler interface {
+	Yield(actor int, point string)
+}
+
+type binding struct {
+	s     Scheduler
+	actor int
+}
+
+// With binds a scheduler and an actor id to the context of one request.
+func With(ctx context.Context, s Scheduler, actor int) context.Context {
+	return context.WithValue(ctx, key{}, &binding{s: s, actor: actor})
+}
+
+// Yield marks a point at which a verification scheduler may switch to another request.
+func Yield(ctx context.Context, point string) {
+	if b, ok := ctx.Value(key{}).(*binding); ok {
+		b.s.Yield(b.actor, point)
+	}
+}
